@@ -112,10 +112,17 @@ type scopeT struct {
 	T time.Time         `json:"t,omitzero"`
 	U []byte            `json:"u"`
 	V uint8             `json:"v,string"`
+	W float64           `json:"w,string"`
 }
 
 func scopeValue(i int) any {
-	switch i % 8 {
+	switch i % 10 {
+	case 8:
+		// the value of a `string`-tagged field fails: the tag's option must not
+		// stay behind in the coder's own options
+		return scopeT{A: 8, W: math.NaN(), H: peers.PTo{ID: 1}}
+	case 9:
+		return []any{scopeT{A: 9, H: peers.PTo{ID: 1}}, &scopeT{W: math.Inf(-1), H: peers.PTo{ID: 1}}}
 	case 0:
 		return scopeT{A: 1, D: "<tag>", G: 1.5, H: peers.PTo{ID: 1}}
 	case 1:
@@ -192,7 +199,7 @@ func (sc *Scope) plan(t *core.Tape) *ScopePlan {
 			}
 		default:
 			it.Kind = p.Side
-			it.Value = s.Draw(8)
+			it.Value = s.Draw(10)
 			for k, m := 0, s.Weighted(2, 3, 2, 1); k < m; k++ {
 				it.CallOpts = append(it.CallOpts, scopedOptNames[s.Draw(len(scopedOptNames))])
 			}
@@ -224,6 +231,8 @@ var scopeTexts = []string{
 	`"plain"`,
 	`{"a":1,"a":2}`,
 	`{"v":true,"a":5}`,
+	`{"a":8,"w":"NaN?","s":"1"}`,
+	`[{"a":9,"w":"1.5"},{"w":"-","a":1}]`,
 }
 
 func (sc *Scope) Run(t *core.Tape, env *Env) (any, []core.Violation) {
@@ -473,6 +482,10 @@ func (sc *Scope) Run(t *core.Tape, env *Env) (any, []core.Violation) {
 		v := scopeValue(bs.Draw(8))
 		var names []string
 		for k, m := 0, 2+bs.Draw(3); k < m; k++ {
+			if bs.Chance(1, 6) {
+				names = append(names, "WithMarshalers", "WithMarshalers(nil)")
+				continue
+			}
 			names = append(names, scopedOptNames[bs.Draw(len(scopedOptNames))])
 		}
 		mk := func() []json.Options {
@@ -480,6 +493,8 @@ func (sc *Scope) Run(t *core.Tape, env *Env) (any, []core.Violation) {
 			for _, n := range names {
 				if n == "WithMarshalers" {
 					os = append(os, json.WithMarshalers(byproductMarshalers))
+				} else if n == "WithMarshalers(nil)" {
+					os = append(os, json.WithMarshalers(nil))
 				} else {
 					os = append(os, scopeOpt(n, penv))
 				}
@@ -494,6 +509,42 @@ func (sc *Scope) Run(t *core.Tape, env *Env) (any, []core.Violation) {
 		c, e3, p3, _, _ := guardedBytes(func() ([]byte, error) { return json.Marshal(v, json.JoinOptions(flat...)) })
 		if !p1 && !p2 && !p3 && ((e1 == nil) != (e2 == nil) || !bytes.Equal(a, b) || (e1 == nil) != (e3 == nil) || !bytes.Equal(a, c)) {
 			report("C19", "C19/flat-vs-nested-options", "Marshal", "options %v: flat %s err=%v ; nested (cut %d) %s err=%v ; joined %s err=%v", names, clip(a, 100), classify(e1), cut, clip(b, 100), classify(e2), clip(c, 100), classify(e3))
+		}
+	}
+	// By-product (pure), marshal side, one probe per boolean option with a value
+	// for which the option matters: set and then cancelled (flat and nested), and
+	// cancelled by DefaultOptionsV2, must all give what no option gives.
+	for _, pr := range marshalOptProbes {
+		base, eb, pb, _, _ := guardedBytes(func() ([]byte, error) { return json.Marshal(pr.v, json.Deterministic(true)) })
+		on, _, _, _, _ := guardedBytes(func() ([]byte, error) { return json.Marshal(pr.v, pr.opt(true), json.Deterministic(true)) })
+		if !bytes.Equal(on, base) {
+			st.Probe("c19/byproduct/option-matters/" + pr.name)
+		}
+		for vi, variant := range [][]json.Options{
+			{pr.opt(true), pr.opt(false)},
+			{pr.opt(true), json.JoinOptions(json.Deterministic(true), pr.opt(false))},
+			{json.JoinOptions(pr.opt(true), json.JoinOptions(pr.opt(false)))},
+			{jsonv1.DefaultOptionsV1(), pr.opt(true), json.DefaultOptionsV2()},
+		} {
+			if vi == 3 && !strings.HasPrefix(pr.name, "v1.") {
+				continue // DefaultOptionsV2 is documented to cancel the v1 options, nothing else
+			}
+			x, ex, px, _, _ := guardedBytes(func() ([]byte, error) { return json.Marshal(pr.v, append(variant, json.Deterministic(true))...) })
+			if !pb && !px && ((eb == nil) != (ex == nil) || !bytes.Equal(base, x)) {
+				report("C19", "C19/later-option-does-not-win", "Marshal/"+pr.name, "Marshal(%T) gives %s err=%v ; with %s set and then cancelled (variant %d) %s err=%v", pr.v, clip(base, 100), classify(eb), pr.name, vi, clip(x, 100), classify(ex))
+				break
+			}
+		}
+	}
+	{
+		// a nested WithUnmarshalers(nil) cancels an earlier one like a flat one does
+		u := json.UnmarshalFromFunc(func(dec *jsontext.Decoder, p *int) error { *p = -1; return dec.SkipValue() })
+		var a, b, c int
+		e1 := json.Unmarshal([]byte(`5`), &a, json.WithUnmarshalers(u), json.WithUnmarshalers(nil))
+		e2 := json.Unmarshal([]byte(`5`), &b, json.WithUnmarshalers(u), json.JoinOptions(json.WithUnmarshalers(nil)))
+		e3 := json.Unmarshal([]byte(`5`), &c, json.JoinOptions(json.WithUnmarshalers(u), json.JoinOptions(json.Deterministic(true), json.WithUnmarshalers(nil))))
+		if e1 != nil || e2 != nil || e3 != nil || a != b || a != c {
+			report("C19", "C19/flat-vs-nested-options", "Unmarshal/WithUnmarshalers(nil)", "WithUnmarshalers(u) then WithUnmarshalers(nil): flat gives %d (%v), nested %d (%v), joined %d (%v)", a, classify(e1), b, classify(e2), c, classify(e3))
 		}
 	}
 	// By-product (pure), unmarshal side: a later false wins, DefaultOptionsV2 cancels v1 options.
@@ -560,6 +611,46 @@ func diffSnap(a, b string) string {
 }
 
 var byproductMarshalers = json.MarshalFunc(func(v int) ([]byte, error) { return []byte(`"int"`), nil })
+
+type scopeNamedByte byte
+
+type scopeLegacyOmit struct {
+	P *string `json:"p,omitempty"`
+	Z [0]int  `json:"z,omitempty"`
+	B bool    `json:"b,omitempty"`
+}
+
+type scopeLegacyString struct {
+	A *int `json:"a,string"`
+	B bool `json:"b,string"`
+}
+
+var marshalOptProbes = []struct {
+	name string
+	v    any
+	opt  func(bool) json.Options
+}{
+	{"v1.FormatDurationAsNano", time.Duration(1500), jsonv1.FormatDurationAsNano},
+	{"v1.FormatByteArrayAsArray", [3]byte{1, 2, 3}, jsonv1.FormatByteArrayAsArray},
+	{"v1.FormatBytesWithLegacySemantics", []scopeNamedByte{1, 2}, jsonv1.FormatBytesWithLegacySemantics},
+	{"v1.OmitEmptyWithLegacySemantics", scopeLegacyOmit{P: new(string)}, jsonv1.OmitEmptyWithLegacySemantics},
+	{"v1.StringifyWithLegacySemantics", scopeLegacyString{A: new(int), B: true}, jsonv1.StringifyWithLegacySemantics},
+	{"v1.ReportErrorsWithLegacySemantics", map[string]any{"a": make(chan int)}, jsonv1.ReportErrorsWithLegacySemantics},
+	{"StringifyNumbers", []any{5, 1.5, uint8(3)}, json.StringifyNumbers},
+	{"FormatNilSliceAsNull", struct{ S []int }{}, json.FormatNilSliceAsNull},
+	{"FormatNilMapAsNull", struct{ M map[string]int }{}, json.FormatNilMapAsNull},
+	{"OmitZeroStructFields", struct{ A, B int }{B: 1}, json.OmitZeroStructFields},
+	{"EscapeForHTML", "<&>", jsontext.EscapeForHTML},
+	{"EscapeForJS", "a\u2028b", jsontext.EscapeForJS},
+	{"SpaceAfterColon", map[string][]int{"a": {1, 2}}, jsontext.SpaceAfterColon},
+	{"SpaceAfterComma", map[string][]int{"a": {1, 2}}, jsontext.SpaceAfterComma},
+	{"Multiline", map[string][]int{"a": {1, 2}}, jsontext.Multiline},
+	{"AllowInvalidUTF8", "a\xffb", jsontext.AllowInvalidUTF8},
+	{"PreserveRawStrings", jsontext.Value(`"\u0041\/"`), jsontext.PreserveRawStrings},
+	{"CanonicalizeRawInts", jsontext.Value(`[1.0e1,9007199254740993]`), jsontext.CanonicalizeRawInts},
+	{"CanonicalizeRawFloats", jsontext.Value(`[1.0e1,0.10]`), jsontext.CanonicalizeRawFloats},
+	{"ReorderRawObjects", jsontext.Value(`{"b":1,"a":2}`), jsontext.ReorderRawObjects},
+}
 
 var unmarshalOptProbes = []struct {
 	name string
